@@ -297,6 +297,7 @@ def check(chk):
 
     _stack_reads(chk, repo)
     _interpolation(chk, repo)
+    _split_symmetry(chk, repo)
     _direct_fade(chk, repo)
 
     # ------------------------------------------------------------ BATCH-1
@@ -460,6 +461,58 @@ def _interpolation(chk, repo):
     ok = len(nof) == 1 and src(nof[0].ast.value) == "None" and cfg.guards_at(nof[0].id).get("fade_ms") is False and len(dt0) == 1 and const_value(dt0[0].ast.value) == 0
     chk.ob("FADE-2", "an entry without fade has no fade end and no start colour", ok, g.where(), construct=g.ident, text="unfaded entry")
     chk.floor("INTERP-1", 5)
+
+
+def _split_symmetry(chk, repo):
+    """SIB-9: both endpoints of a fade are split into channel brightnesses by the same formula under the same conditions (with
+    start_color / target_color exchanged).  An endpoint computed differently ends the fade on another colour than the stack's.
+    BATCH-4: a light joins the running batch exactly when it directly succeeds the previous light; a brightness joins the running
+    list exactly when its fade time agrees within the tolerance and the list is not full."""
+    from sa.cfg import canon_set
+    from sa.helpers import positive, exact_selection
+    f = repo.func(LT, "Light._schedule_update")
+    cfg = f.cfg()
+    loops = [h for h in cfg.nodes if h.kind == "loop" and "hw_drivers" in src(h.ast.iter)]
+    chk.need(loops, "SIB-9", "_schedule_update walks the hardware channels", f)
+    head = loops[0]
+
+    def norm(t):
+        return t.replace("start_color", "C").replace("target_color", "C")
+    table = {"start_brightness": [], "target_brightness": []}
+    for n in cfg.nodes:
+        if n.kind == "stmt" and isinstance(n.ast, ast.Assign) and src(n.ast.targets[0]) in table and any(y is n.ast for y in ast.walk(head.ast)):
+            g = positive(set(canon_set(cfg.guards_at(n.id))) - set(canon_set(cfg.guards_at(head.id))))
+            key = (tuple(sorted((norm(k), v) for k, v in g if "C" in norm(k) or True)), norm(src(n.ast.value)))
+            table[src(n.ast.targets[0])].append((key, n))
+    # guards that test the *other* endpoint's colour do not dominate this endpoint's assignment; compare per endpoint
+    a = sorted(k for k, _ in table["start_brightness"])
+    b = sorted(k for k, _ in table["target_brightness"])
+    chk.ob("SIB-9", "start and target brightness of every channel come from the same formula under the same conditions", a == b and len(a) >= 6, f.where(head.ast),
+           detail="start-only %s ; target-only %s" % ([x for x in a if x not in b][:2], [x for x in b if x not in a][:2]), construct=f.ident,
+           text="endpoint split asymmetry")
+    bl = repo.cls(BL, "PlatformBatchLightSystem")
+    su = bl.methods["_send_updates"]
+    scfg = su.cfg()
+    app = [(n, c) for n, c in scfg.calls_named("append") if src(c.func.value) == "sequential_lights"]
+    lh = [h for h in scfg.nodes if h.kind == "loop" and "dirty_lights" in src(h.ast.iter)]
+    if not (len(app) == 1 and lh):
+        chk.missing("BATCH-4", "_send_updates extends the running batch", su)
+        return
+    exact_selection(chk, "BATCH-4", "a light joins the running batch exactly when it directly succeeds the batch's last light", su, scfg, app[0][0], lh[0],
+                    {("sequential_lights", True), ("light.is_successor_of(sequential_lights[-1])", True)}, text="batch extension exactly")
+    sb = bl.methods["_send_update_batch"]
+    bcfg = sb.cfg()
+    app = [(n, c) for n, c in bcfg.calls_named("append") if src(c.func.value) == "sequential_brightness_list"]
+    lh = [h for h in bcfg.nodes if h.kind == "loop" and src(h.ast.iter) == "sequential_lights"]
+    if not (len(app) == 1 and lh):
+        chk.missing("BATCH-4", "_send_update_batch extends the running brightness list", sb)
+        return
+    got = positive(set(canon_set(bcfg.guards_at(app[0][0].id))) - set(canon_set(bcfg.guards_at(lh[0].id))))
+    texts = sorted(k.replace(" ", "") for k, v in got if v is True)
+    ok = len(got) == 2 and all(v is True for _, v in got) and any("max_fade_tolerance" in t and "common_fade_ms-fade_ms" in t for t in texts) and \
+        any(t in ("len(sequential_brightness_list)<self.max_batch_size", "self.max_batch_size>len(sequential_brightness_list)") for t in texts)
+    chk.ob("BATCH-4", "a brightness joins the running list exactly when its fade time agrees within the tolerance and the list is not full", ok, sb.where(app[0][1]),
+           detail=str(sorted(got)), construct=sb.ident, text="brightness list extension exactly")
 
 
 def _stack_reads(chk, repo):
@@ -676,6 +729,9 @@ def battery():
         M("fade start colour read after the old entry is gone", LT, "        if fade_ms:\n            dest_time = start_time + (fade_ms / 1000)\n            color_below = self.get_color_below(priority, key)\n        else:\n            dest_time = 0\n            color_below = None\n\n        if self.stack:\n            self._remove_from_stack_by_key(key)\n", "        if self.stack:\n            self._remove_from_stack_by_key(key)\n\n        if fade_ms:\n            dest_time = start_time + (fade_ms / 1000)\n            color_below = self.get_color_below(priority, key)\n        else:\n            dest_time = 0\n            color_below = None\n", "FADE-2"),
         M("fade start colour of another priority", LT, "            color_below = self.get_color_below(priority, key)", "            color_below = self.get_color_below(0, key)", "FADE-2"),
         M("twin: ratio on one line", LT, "            ratio = ((target_time - color_settings.start_time) /\n                     (color_settings.dest_time - color_settings.start_time))", "            ratio = (target_time - color_settings.start_time) / (color_settings.dest_time - color_settings.start_time)", None),
+        M("start brightness of the white channel split differently from the target", LT, "                    if start_color.red == start_color.green == start_color.blue:\n                        start_brightness = start_color.red / 255.0", "                    if start_color.red == start_color.green:\n                        start_brightness = start_color.red / 255.0", "SIB-9"),
+        M("lights batched although not adjacent", BL, "                elif light.is_successor_of(sequential_lights[-1]):", "                elif light.is_successor_of(sequential_lights[-1]) or len(sequential_lights) < 2:", "BATCH-4"),
+        M("brightness list ignores the fade tolerance", BL, "            if -max_fade_tolerance < common_fade_ms - fade_ms < max_fade_tolerance and \\\n                    len(sequential_brightness_list) < self.max_batch_size:", "            if len(sequential_brightness_list) < self.max_batch_size:", "BATCH-4"),
     ]
 
 
